@@ -400,6 +400,48 @@ def sentinel_blocks(ctx, tmpdir, with_stop=False):
             check_run(ctx, dict(case, data_hex=data.hex()), data, res, expected, tmpdir)
 
 
+def main_thread_returns(ctx, tmpdir):
+    """a program whose main thread returns right after start_all(): the files are complete all the same"""
+    rng = ctx.rng("main-returns")
+    case = P.random_pipeline_case(rng, max_windows=40, want_saver=True)
+    case["v"] = ((list(case["v"]) or [1, 1, 0]) * 3)[:60] + [1, 1, 1]
+    case["partial"] = 0
+    case.pop("hop", None)
+    case["silence"] = rng.choice((0, 0.1, 3 * case["block"] / case["rate"]))
+    built = AC.build_audio(case)
+    if built is None:
+        return
+    data, _ = built
+    expected = P.split_reference(data, case)
+    P.clean_dir(tmpdir)
+    res = P.run_main_returns_child(case, data, tmpdir)
+    if "inconclusive" in res:
+        ctx.count("inconclusive_runs")
+        return
+    ctx.count("programs_whose_main_thread_returned_after_start_all")
+    ctx.case(stable_hash(["main-returns", P.case_json(case)["v"], case["rate"], case["silence"]]), bool(expected))
+    bps = case["width"] * case["channels"]
+    w = {"case": P.case_json(case), "exit_status": res["rc"], "stderr": res["stderr"][-300:]}
+    try:
+        frames = P.wav_read(res["stream"])[0]
+    except Exception as exc:
+        frames = repr(exc)
+    if frames != data:
+        ctx.violation("saved-stream-incomplete-when-the-main-thread-returns-after-start_all", dict(w, saved=(len(frames) if isinstance(frames, bytes) else frames), read=len(data)))
+        return
+    sil = bytes(round(case["silence"] * case["rate"]) * bps)
+    try:
+        joined = P.wav_read(res["joined"])[0]
+    except Exception as exc:
+        joined = repr(exc)
+    if joined != sil.join(b for _, _, _, b in expected):
+        ctx.violation("joined-events-incomplete-when-the-main-thread-returns-after-start_all", dict(w, got=(len(joined) if isinstance(joined, bytes) else joined)))
+        return
+    names = sorted(os.listdir(res["regions"]))
+    if names != sorted(f"det_{i}.wav" for i, _, _, _ in expected):
+        ctx.violation("region-files-missing-when-the-main-thread-returns-after-start_all", dict(w, files=names[:10], expected=len(expected)))
+
+
 def export_cases(ctx, tmpdir):
     """(a) raw export of a stream longer than 2**20 frames; (b) a target format nobody can encode here: the wav that was
     written must survive the workers (export_audio() warns, objects are dropped and collected)."""
@@ -571,6 +613,8 @@ def run_shard(ctx):
         if ctx.shard in (2, 11) or ctx.tier == "thorough":
             for _ in sentinel_blocks(ctx, tmpdir):
                 pass
+        if ctx.shard in (7, 13) or ctx.tier == "thorough":
+            main_thread_returns(ctx, tmpdir)
         two_pipelines_at_once(ctx, tmpdir)
         if ctx.shard in (4, 9) or ctx.tier == "thorough":
             for _ in range(1 if ctx.tier == "quick" else 6):
@@ -593,7 +637,7 @@ def inconclusive(merged, tier):
     c = merged["counters"]
     need = ["scheduled_runs", "saver_runs", "blocks_checked", "joiner_files_checked", "joiner_files_with_zero_events",
             "region_dirs_checked", "region_files_checked", "runs_on_empty_stream", "runs_on_event_free_stream", "runs_with_a_stop", "runs_with_short_reads",
-            "big_audio_runs", "runs_with_files_of_an_earlier_run_in_the_way", "runs_with_blocks_that_look_like_internal_messages", "saver_runs_over_an_overlapping_reader", "line_mode_runs", "instruction_mode_runs", "all_module_line_mode_runs", "timeouts_fired", "systematic_schedules", "systematic_pipelines_fully_enumerated", "stress_runs", "stress_files_checked", "huge_backlog_runs", "raw_export_runs", "unencodable_export_runs", "two_pipeline_runs", "timeout_marathon_runs"]
+            "big_audio_runs", "programs_whose_main_thread_returned_after_start_all", "runs_with_files_of_an_earlier_run_in_the_way", "runs_with_blocks_that_look_like_internal_messages", "saver_runs_over_an_overlapping_reader", "line_mode_runs", "instruction_mode_runs", "all_module_line_mode_runs", "timeouts_fired", "systematic_schedules", "systematic_pipelines_fully_enumerated", "stress_runs", "stress_files_checked", "huge_backlog_runs", "raw_export_runs", "unencodable_export_runs", "two_pipeline_runs", "timeout_marathon_runs"]
     out = [f"monitor never observed {k}" for k in need if c.get(k, 0) == 0]
     if max(c.get("max:queue_depth", 0), c.get("max:blocks_read_while_the_writer_did_not_run", 0)) < 16384:
         out.append("the writer never lagged by more than 16384 blocks")
